@@ -47,7 +47,7 @@ def names_threshold(issue, t):
 
 
 def tainted(row):
-    return isinstance(row.get("issue"), str) and "timeout" in row["issue"].lower()
+    return rowlib.tainted(row)
 
 
 def select(rng, b, n_mcs, n_other, res):
